@@ -7,7 +7,7 @@ From GoPdf.Base Require Import Bytes.
 From GoPdf.C02 Require Import Obj Writer.
 From GoPdf.Base Require Import Res.
 From GoPdf.C02 Require Import Dec Syntax Stored Expect Reader.
-From GoPdf.C03 Require Import PSyntax Validate ValidateProofs ModelWriter.
+From GoPdf.C03 Require Import PSyntax Validate ValidateProofs ModelWriter SyntaxRT.
 Import ListNotations.
 Open Scope N_scope.
 
@@ -291,6 +291,47 @@ Theorem validate_model_writer_partial :
           declared_length fmt st lr (N.of_nat (length raw)))).
 Proof. exact model_writer_facts. Qed.
 Print Assumptions validate_model_writer_partial.
+
+(* ================= the validator's parser reads the model formatter's text ================= *)
+
+(* any well-formed value (bytes below 256, real tokens that are reals, distinct keys among the entries
+   that are written), formatted by the model writer's canonical formatter and followed by something
+   that cannot continue it, is read by the validator's parser as its normal form *)
+Theorem parser_accepts_formatter :
+  forall o, wf_obj o -> forall rest fuel, follow_ok rest ->
+    (length (fmt_obj o ++ rest) < fuel)%nat -> vobj fuel (fmt_obj o ++ rest) = Some (norm o, rest).
+Proof. exact vobj_fmt_obj. Qed.
+Print Assumptions parser_accepts_formatter.
+
+(* in the position of an indirect object: after "obj" LF, before LF and a non-digit ("endobj") *)
+Theorem parser_accepts_object :
+  forall o rest, wf_obj o -> no_digit_next rest ->
+    vvalue (10 :: fmt_obj o ++ 10 :: rest) = Some (norm o, 10 :: rest).
+Proof. exact vvalue_fmt_obj_lf. Qed.
+Print Assumptions parser_accepts_object.
+
+(* a stream dictionary with its /Length in any of the three forms *)
+Theorem parser_accepts_stream_dict :
+  forall d lr rest, wf_obj (ODict d) -> dict_get k_Length d = None ->
+    exists d', vvalue (10 :: fmt_sd_concrete d lr ++ 10 :: rest) = Some (ODict d', 10 :: rest) /\
+               dict_get k_Length d' = Some (lenval lr) /\
+               ODict (dict_del k_Length d') = norm (ODict d).
+Proof. exact vvalue_fmt_sd_nolength. Qed.
+Print Assumptions parser_accepts_stream_dict.
+
+(* so the two syntax hypotheses of C02's write_read theorems are met by the canonical formatter and the
+   validator's parser, with "well-formed, and a dictionary has no /Length of its own" as the predicate *)
+Definition wfo_c (o : obj) : Prop :=
+  wf_obj o /\ (forall d, o = ODict d -> dict_get k_Length d = None).
+
+Theorem syntax_hypotheses_hold :
+  (forall o rest, wfo_c o ->
+     vvalue (LF :: fmt_obj o ++ LF :: kw_endobj ++ rest) = Some (norm o, LF :: kw_endobj ++ rest)) /\
+  (forall sd lr rest, wfo_c (ODict sd) -> exists d',
+     vvalue (LF :: fmt_sd_concrete sd lr ++ LF :: kw_stream ++ rest) = Some (ODict d', LF :: kw_stream ++ rest) /\
+     dict_get k_Length d' = Some (lenval lr) /\ ODict (dict_del k_Length d') = norm (ODict sd)).
+Proof. exact syntax_hypotheses_lemma. Qed.
+Print Assumptions syntax_hypotheses_hold.
 
 (* ================= the hypotheses are satisfiable ================= *)
 Definition bs (s : string) : bytes := map N_of_ascii (list_ascii_of_string s).
